@@ -436,7 +436,14 @@ func (in *interp) onWrite(p *value) {
 
 // ---- channels ----
 
+type pendingSend struct {
+	v     value
+	taken bool
+	vc    vclock
+}
+
 type channel struct {
+	pending     []*pendingSend // blocked senders of an unbuffered channel
 	buf         []value
 	capacity    int
 	closed      bool
@@ -461,11 +468,24 @@ func (in *interp) chanSend(ch *channel, v value) {
 	if ch == nil {
 		s.block(func() bool { return false }, "send on nil channel")
 	}
-	if ch.capacity > 0 {
-		s.block(func() bool { return ch.closed || len(ch.buf) < ch.capacity }, "send "+chName(ch))
-	} else {
-		s.block(func() bool { return ch.closed || (ch.recvWaiters > 0 && len(ch.buf) == 0) }, "send "+chName(ch))
+	if ch.capacity == 0 {
+		if ch.closed {
+			panic(targetPanic{msg: "send on closed channel"})
+		}
+		p := &pendingSend{v: copyVal(v)}
+		if in.race != nil {
+			p.vc = s.cur.vc.copy()
+			in.race.tick(s.cur)
+		}
+		ch.pending = append(ch.pending, p)
+		s.wepoch++
+		s.block(func() bool { return p.taken || ch.closed }, "send "+chName(ch))
+		if !p.taken {
+			panic(targetPanic{msg: "send on closed channel"})
+		}
+		return
 	}
+	s.block(func() bool { return ch.closed || len(ch.buf) < ch.capacity }, "send "+chName(ch))
 	if ch.closed {
 		panic(targetPanic{msg: "send on closed channel"})
 	}
@@ -474,6 +494,36 @@ func (in *interp) chanSend(ch *channel, v value) {
 	if in.race != nil {
 		in.race.chanSend(s.cur, ch)
 	}
+}
+
+// takeFrom removes the next value from a channel that is ready for receiving.
+func (in *interp) takeFrom(ch *channel) (v value, ok bool) {
+	s := in.sch
+	if len(ch.buf) > 0 {
+		v = ch.buf[0]
+		ch.buf = ch.buf[1:]
+		if in.race != nil {
+			in.race.chanRecv(s.cur, ch)
+		}
+		return v, true
+	}
+	if len(ch.pending) > 0 {
+		p := ch.pending[0]
+		ch.pending = ch.pending[1:]
+		p.taken = true
+		if in.race != nil {
+			s.cur.vc.join(p.vc)
+		}
+		return p.v, true
+	}
+	if in.race != nil {
+		in.race.chanRecvClosed(s.cur, ch)
+	}
+	return nil, false
+}
+
+func chanRecvReady(ch *channel) bool {
+	return len(ch.buf) > 0 || len(ch.pending) > 0 || ch.closed
 }
 
 func chName(ch *channel) string {
@@ -489,27 +539,12 @@ func (in *interp) chanRecv(ch *channel, commaOk bool, elem types.Type) value {
 	if ch == nil {
 		s.block(func() bool { return false }, "recv on nil channel")
 	}
-	if ch.capacity == 0 {
-		ch.recvWaiters++
-	}
-	s.block(func() bool { return len(ch.buf) > 0 || ch.closed }, "recv "+chName(ch))
-	if ch.capacity == 0 {
-		ch.recvWaiters--
-	}
-	var v value
-	ok := false
-	if len(ch.buf) > 0 {
-		v = ch.buf[0]
-		ch.buf = ch.buf[1:]
-		ok = true
-		if in.race != nil {
-			in.race.chanRecv(s.cur, ch)
-		}
-	} else {
+	ch.recvWaiters++
+	s.block(func() bool { return chanRecvReady(ch) }, "recv "+chName(ch))
+	ch.recvWaiters--
+	v, ok := in.takeFrom(ch)
+	if !ok {
 		v = in.zero(elem)
-		if in.race != nil {
-			in.race.chanRecvClosed(s.cur, ch)
-		}
 	}
 	s.wepoch++
 	if commaOk {
@@ -561,7 +596,7 @@ func (in *interp) selectOp(fr *frame, instr *ssa.Select) value {
 					(x.ch.capacity == 0 && x.ch.recvWaiters > 0 && len(x.ch.buf) == 0) {
 					r = append(r, i)
 				}
-			} else if len(x.ch.buf) > 0 || x.ch.closed {
+			} else if chanRecvReady(x.ch) {
 				r = append(r, i)
 			}
 		}
@@ -570,13 +605,13 @@ func (in *interp) selectOp(fr *frame, instr *ssa.Select) value {
 	rd := ready()
 	if len(rd) == 0 && instr.Blocking {
 		for _, x := range states {
-			if !x.send && x.ch != nil && x.ch.capacity == 0 {
+			if !x.send && x.ch != nil {
 				x.ch.recvWaiters++
 			}
 		}
 		s.block(func() bool { return len(ready()) > 0 }, "select")
 		for _, x := range states {
-			if !x.send && x.ch != nil && x.ch.capacity == 0 {
+			if !x.send && x.ch != nil {
 				x.ch.recvWaiters--
 			}
 		}
@@ -602,15 +637,8 @@ func (in *interp) selectOp(fr *frame, instr *ssa.Select) value {
 			if in.race != nil {
 				in.race.chanSend(s.cur, x.ch)
 			}
-		} else if len(x.ch.buf) > 0 {
-			recvVal = x.ch.buf[0]
-			x.ch.buf = x.ch.buf[1:]
-			recvOk = true
-			if in.race != nil {
-				in.race.chanRecv(s.cur, x.ch)
-			}
-		} else if in.race != nil {
-			in.race.chanRecvClosed(s.cur, x.ch)
+		} else {
+			recvVal, recvOk = in.takeFrom(x.ch)
 		}
 		s.wepoch++
 	}
